@@ -358,7 +358,7 @@ func c14(ctx *run.Ctx) {
 				continue
 			}
 			ctx.Case(fmt.Sprintf("strat/%d/n%d", si, n), func(cc *run.Case) {
-				class := []string{gen.Walk, gen.Walk2, gen.Ties}[cc.R.Intn(3)]
+				class := []string{gen.Walk, gen.Walk2, gen.Ties, gen.Flat, gen.Plateau, gen.Degen, gen.LimitRun, gen.Dyadic, gen.Halt}[cc.R.Intn(9)]
 				if c14Check(cc, ns, class, n) {
 					cc.Distinct(fmt.Sprintf("%s/%d", ns.Name, n))
 				}
